@@ -169,7 +169,7 @@ def gen_plan(prop, tier, rng, i):
                 ops.append({"op": "mread", "r": 0, "a": srt[0], "b": srt[-1], "cols": None, "method": None})
         idxs = _gen_indices(rng, cfg, cur, cnt, small)
         cur = idxs[-1]
-        if prop == "C13" and form == "list" and cnt >= 3 and rng.random() < 0.5:
+        if prop in ("C13", "C20", "C12") and form == "list" and cnt >= 3 and rng.random() < (0.5 if prop == "C13" else 0.25):
             # one call carrying indices that are not in ascending order
             idxs = idxs[:1] + idxs[2:] + idxs[1:2] if rng.random() < 0.5 else [idxs[0]] + idxs[:0:-1]
         if form == "single":
@@ -205,7 +205,9 @@ def gen_plan(prop, tier, rng, i):
             ops.append(_gen_query(rng, cfg, model_idx, nreaders, fields, with_rf))
     for _ in range(6 if prop == "C12" else 3):
         ops.append(_gen_query(rng, cfg, model_idx, nreaders, fields, with_rf))
-    plan = {"engine": "mdsim", "md": cfg.to_json(), "ops": ops, "readdir_seed": rng.randrange(2**32), "fields": fields}
+    plan = {"engine": "mdsim", "md": cfg.to_json(), "ops": ops, "readdir_seed": rng.randrange(2**32), "fields": fields,
+            # local time zone of the process that writes and reads (names and times of the format are UTC whatever it is)
+            "proc_tz": rng.choice([None, None, None, "XYZ-05:30", "ABC+08", "EST5EDT,M3.2.0,M11.1.0"])}
     if with_rf:
         rcfg = M.gen_cfg(rng, {"maxcap": 100, "p_continuous": 0.5, "p_filters": 0.2})
         t = 0
@@ -316,6 +318,13 @@ def run_plan(prop, plan):
     mdir = os.path.join(chdir, "metadata")
     os.makedirs(mdir)
     clock = Clock()
+    old_tz = os.environ.get("TZ")
+    if plan.get("proc_tz"):
+        import time as _time
+
+        os.environ["TZ"] = plan["proc_tz"]
+        _time.tzset()
+        res.probe("process_tz_not_utc")
     seams.install(tree, plan.get("readdir_seed", 1), clock=clock)
     model = MD.MdModel(cfg)
     readers = []
@@ -490,6 +499,14 @@ def run_plan(prop, plan):
         return res
     finally:
         seams.uninstall()
+        if plan.get("proc_tz"):
+            import time as _time
+
+            if old_tz is None:
+                os.environ.pop("TZ", None)
+            else:
+                os.environ["TZ"] = old_tz
+            _time.tzset()
         if rf["w"] is not None:
             try:
                 rf["w"].close()
